@@ -3,7 +3,8 @@
 Monitor: the real Cluster/Session/ResponseFuture/ResultSet run in the deterministic world against a scripted
 wire-level node that serves a statement as a sequence of pages (0-3 rows each, empty pages included, unique row
 ids, opaque random paging states).  Every page-size sequence up to a bound is combined with every access pattern
-(iterate, list(), all(), manual fetch_next_page + current_rows, indexing / equality (list mode), one(), iteration
+(iterate, list(), all(), manual fetch_next_page + current_rows, indexing / equality (list mode), one(), callback-driven paging
+with the handler attached before / after the first response, iteration
 interleaved with the read-only observers has_more_pages / one() / current_rows / paging_state) and the three
 stock row factories.  Oracle: the rows the caller saw are the concatenation of the pages; request i carries exactly
 the paging state returned with page i-1 (the first none) and the statement's fetch size; nothing is requested
@@ -19,7 +20,7 @@ PROPERTY = "C18"
 LEVEL = "exploration"
 ENGINE = "sim"
 TECHNIQUE = "runtime monitor in a deterministic world: scripted page server + sequential reference (concatenation of pages, paging-state chain) over an enumerated space of page-size sequences x access patterns"
-LEVEL_TEXT = ("Exhaustive over page-size sequences in {0..3}^(1..4) on quick ({0..3}^(1..7) on thorough) x 10 access patterns, row factory "
+LEVEL_TEXT = ("Exhaustive over page-size sequences in {0..3}^(1..4) on quick ({0..3}^(1..7) on thorough) x 13 access patterns, row factory "
               "tuple/dict/named rotating (all three for every sequence on thorough): rows seen == concatenation of pages, paging-state chain "
               "exact, no request after the final page, list materialisation == iteration, observers agree with the page model. "
               "Exhaustive within those bounds for the sequential access patterns listed; schedules (thread interleavings) are sampled.")
@@ -30,7 +31,8 @@ QUICK_WORKERS = 4
 WORKERS = 14
 
 COLS = [('id', ('int',)), ('tag', ('text',))]
-PATTERNS = ['iterate', 'list', 'all', 'manual', 'index', 'eq', 'next-observed', 'one-then-iterate', 'manual-observed', 'bool-then-list']
+PATTERNS = ['iterate', 'list', 'all', 'manual', 'index', 'eq', 'next-observed', 'one-then-iterate', 'manual-observed', 'bool-then-list',
+            'callback-paging-early', 'callback-paging-late', 'callback-paging-split']
 
 
 class PageServer(object):
@@ -68,6 +70,45 @@ class PageServer(object):
         if k + 1 < len(pages):
             md['paging_state'] = sp['states'][k]        # states[k] leads to page k+1
         return node.rows(cstate, req, COLS, [[rid, 'p%d' % k] for rid in pages[k]], 'ks', 't', **md)
+
+
+def callback_paging(pattern, session, statement, profile, world, sp):
+    """The documented callback-driven paging (PagedResultHandler): execute_async, a handler added with add_callbacks that collects the page and,
+    while has_more_pages, calls start_fetching_next_page().  'early': the handler is attached before the first response can be processed;
+    'late': after the first page's response was processed (the callback runs immediately inside add_callbacks); 'split': add_callback and
+    add_errback as two calls after the first response."""
+    seen, errors, prob = [], [], []
+    pages_seen = [0]
+    box = {}
+
+    def handle_page(rows):
+        pages_seen[0] += 1
+        seen.extend(rid(r) for r in (rows or []))
+        f = box['f']
+        if f.has_more_pages and pages_seen[0] <= len(sp['pages']) + 3:
+            f.start_fetching_next_page()
+
+    def handle_error(exc):
+        errors.append(exc)
+    if pattern == 'callback-paging-early':
+        with world.inspect():                 # main keeps the baton: no response is processed before the handler is attached
+            box['f'] = session.execute_async(statement, execution_profile=profile)
+            box['f'].add_callbacks(handle_page, handle_error)
+    else:
+        box['f'] = session.execute_async(statement, execution_profile=profile)
+        world.settle(advance=False)           # the first page's response has been processed
+        if pattern == 'callback-paging-late':
+            box['f'].add_callbacks(handle_page, handle_error)
+        else:
+            box['f'].add_errback(handle_error)
+            box['f'].add_callback(handle_page)
+    world.settle(advance=False)
+    if errors:
+        prob.append(('callback-paging-errback-invoked', 'the errback ran: %r' % (errors[:2],)))
+    if pages_seen[0] != len(sp['pages']):
+        prob.append(('callback-paging-handler-missed-pages', 'the handler was invoked for %d pages, the node delivered %d (requests %d)' % (
+            pages_seen[0], len(sp['pages']), len(sp['log']))))
+    return seen, prob
 
 
 def rid(row):
@@ -557,8 +598,11 @@ def run(ctx):
                     fetch = srng.choice([1, 2, 3, 5000])
                     st = SimpleStatement(uid_query(uid), fetch_size=fetch)
                     try:
-                        rs = session.execute(st, execution_profile=fname)
-                        seen, prob = access(pat, rs, sp, makers[fname])
+                        if pat.startswith('callback-paging'):
+                            seen, prob = callback_paging(pat, session, st, fname, env.world, sp)
+                        else:
+                            rs = session.execute(st, execution_profile=fname)
+                            seen, prob = access(pat, rs, sp, makers[fname])
                     except (W.WorldHang, W.WorldLimit):
                         raise
                     except Exception as e:      # the access pattern itself failed
